@@ -877,12 +877,7 @@ func (ea *errAnalysis) runE6(rule string, only func(fn *ssa.Function) bool) {
 					continue
 				}
 				// does the callee have a return (nil, non-nil)?
-				canNil := false
-				for _, r := range returnsOf(callee) {
-					if isNilConst(stripTrivial(retVal(r, pi))) && errNilness(retVal(r, ei), r.Block(), 0) >= 0 && !isNilConst(stripTrivial(retVal(r, ei))) {
-						canNil = true
-					}
-				}
+				canNil := ea.canReturnNilWithErr(callee, pi, 0)
 				if !canNil {
 					continue
 				}
@@ -1016,6 +1011,44 @@ func (ea *errAnalysis) fallbackRecomputes(r *ssa.Return, errIdx int, region map[
 			}
 			if _, has := errorValueOfCall(call); has && ea.storage.Instr(call) {
 				return true
+			}
+		}
+	}
+	return false
+}
+
+// canReturnNilWithErr: callee has a return whose result #pi is nil (directly,
+// or forwarded from a module callee that can) together with a possibly
+// non-nil error.
+func (ea *errAnalysis) canReturnNilWithErr(callee *ssa.Function, pi, depth int) bool {
+	if callee == nil || callee.Blocks == nil || depth > 3 {
+		return false
+	}
+	ei := errResultIndex(callee.Signature)
+	if ei < 0 {
+		return false
+	}
+	for _, r := range returnsOf(callee) {
+		ev := stripTrivial(retVal(r, ei))
+		if isNilConst(ev) {
+			continue
+		}
+		for _, root := range roots(retVal(r, pi)) {
+			if isNilConst(root) {
+				return true
+			}
+			if ex, ok := root.(*ssa.Extract); ok {
+				if call, ok := ex.Tuple.(*ssa.Call); ok {
+					g := staticCallee(&call.Call)
+					if g != nil && ea.l.inModule(g) && nilFactAt(ex, r.Block()) <= 0 {
+						// forwarded together with that call's error?
+						if ge := extractOf(call, errResultIndex(g.Signature)); ge != nil && nilFactAt(ge, r.Block()) >= 0 {
+							if ea.canReturnNilWithErr(g, ex.Index, depth+1) {
+								return true
+							}
+						}
+					}
+				}
 			}
 		}
 	}
